@@ -7,6 +7,8 @@ parameters and the real wrapped single-head attention.
 """
 from ..core import Violation
 
+from .. import layout as LY
+
 ID = "C20"
 LEVEL = "exploration"
 RULE = (
@@ -298,6 +300,9 @@ def _materialise(case):
     mask = None
     if case["mask"] is not None:
         mask = torch.tensor(case["mask"], dtype=torch.bool)
+    # same values, hostile memory layout (strides / storage offset), chosen from the case's own numbers
+    lay = case.get("layout") or LY.pick(case["seed"], case["n"], case["pos"])
+    q, k, v, mask = (LY.relayout(t, lay) for t in (q, k, v, mask))
     return mod, q, k, v, mask, g
 
 
